@@ -18,40 +18,63 @@ Proof.
   f_equal. exact IH.
 Qed.
 
-(* overlap option: exactly one copy, at the highest granted QoS (capped by the published QoS), with
-   exactly the identifiers of the matching subscriptions — stated for sessions whose matching
-   subscriptions agree on No-Local and Retain-As-Published (with mixed options the property text
-   itself does not say which subscription's options the single copy should follow) *)
+(* overlap option: exactly one copy, at the highest granted QoS (capped by the published QoS), with exactly the
+   identifiers of the matching subscriptions - those that are not (No-Local and own publish): a No-Local subscription
+   takes no part in the copy of its own session's publish, wherever the walk meets it. Retain-As-Published is that of
+   the first of them in walk order (the property text does not say whose it should be when they differ; [uniform_rap]
+   states the order-independent case) *)
 Definition max_qos (subs : list sparams) : N := fold_right (fun sp a => N.max (sp_qos sp) a) 0 subs.
 Definition all_ids (subs : list sparams) : list N := flat_map ids_of subs.
-Definition uniform (subs : list sparams) : Prop :=
-  forall a b, In a subs -> In b subs -> sp_nl a = sp_nl b /\ sp_rap a = sp_rap b.
+Definition uniform_rap (subs : list sparams) : Prop :=
+  forall a b, In a subs -> In b subs -> sp_rap a = sp_rap b.
 
-Lemma merge_some self subs e :
-  collect_merge self subs (Some e) =
+Lemma merge_filter self subs : forall cur,
+  collect_merge self subs cur = collect_merge false (filter (eligible self) subs) cur.
+Proof.
+  induction subs as [|sp r IH]; intros cur; [reflexivity|]. cbn [collect_merge filter]. unfold eligible at 1.
+  destruct (sp_nl sp && self) eqn:E; cbn [negb].
+  - apply IH.
+  - cbn [collect_merge]. rewrite andb_false_r. destruct cur; apply IH.
+Qed.
+
+Lemma merge_some subs e :
+  collect_merge false subs (Some e) =
   Some (mkE (e_rap e) (N.max (e_qos e) (max_qos subs)) (e_ids e ++ all_ids subs)).
 Proof.
   revert e. induction subs as [|sp r IH]; intros e; cbn [collect_merge max_qos all_ids fold_right flat_map].
   - rewrite N.max_0_r, app_nil_r. destruct e; reflexivity.
-  - rewrite IH. cbn [e_rap e_qos e_ids]. rewrite N.max_assoc, app_assoc. reflexivity.
+  - rewrite andb_false_r, IH. cbn [e_rap e_qos e_ids]. rewrite N.max_assoc, app_assoc. reflexivity.
 Qed.
 
-Lemma merge_is_spec self subs pq pr : uniform subs ->
+Lemma merge_is_spec self subs pq pr :
   deliveries true self subs pq pr =
-  match subs with
+  match filter (eligible self) subs with
   | [] => []
-  | sp :: _ => if sp_nl sp && self then []
-               else [mkD (N.min pq (max_qos subs)) (sp_rap sp && pr) false (all_ids subs)]
+  | (sp :: _) as el => [mkD (N.min pq (max_qos el)) (sp_rap sp && pr) false (all_ids el)]
   end.
 Proof.
-  intros Hu. unfold deliveries. destruct subs as [|sp r]; [reflexivity|]. cbn [collect_merge].
-  destruct (sp_nl sp && self) eqn:E.
-  - (* every subscription is No-Local and the publish is the session's own: nothing is sent *)
-    assert (forall l, (forall x, In x l -> sp_nl x = sp_nl sp) -> collect_merge self l None = None) as Hn.
-    { induction l as [|x l IH]; intros Hl; [reflexivity|]. cbn [collect_merge]. rewrite (Hl x (or_introl eq_refl)), E.
-      apply IH. intros y Hy. apply Hl. right. exact Hy. }
-    rewrite Hn; [reflexivity|]. intros x Hx. destruct (Hu x sp (or_intror Hx) (or_introl eq_refl)) as [H _]. exact H.
-  - rewrite merge_some. cbn [to_delivery e_rap e_qos e_ids max_qos all_ids fold_right flat_map d_qos]. reflexivity.
+  unfold deliveries. rewrite merge_filter. destruct (filter (eligible self) subs) as [|sp r]; [reflexivity|].
+  cbn [collect_merge]. rewrite andb_false_r, merge_some.
+  cbn [to_delivery e_rap e_qos e_ids max_qos all_ids fold_right flat_map d_qos]. reflexivity.
+Qed.
+
+(* ... and with one Retain-As-Published among them the copy does not depend on the order of the walk *)
+Lemma merge_rap_any self subs pq pr sp d : uniform_rap subs -> In sp subs ->
+  In d (deliveries true self subs pq pr) -> d_retain d = (sp_rap sp && pr).
+Proof.
+  intros Hu Hin. rewrite merge_is_spec. destruct (filter (eligible self) subs) as [|x r] eqn:E; [intros []|].
+  intros [<-|[]]. cbn [d_retain]. f_equal. apply Hu; [|exact Hin].
+  assert (In x (filter (eligible self) subs)) as Hx by (rewrite E; left; reflexivity).
+  apply filter_In in Hx. exact (proj1 Hx).
+Qed.
+
+(* the merge as it was let a No-Local subscription into the copy of the session's own publish *)
+Lemma merge_old_refuted :
+  exists a b, sp_nl b = true /\
+    collect_merge_old true [a; b] None = Some (mkE (sp_rap a) (N.max (sp_qos a) (sp_qos b)) (ids_of a ++ ids_of b))
+    /\ (sp_qos a <? sp_qos b) = true.
+Proof.
+  exists (mkSP 0 false false 0 2), (mkSP 2 true false 0 1). vm_compute. repeat split; reflexivity.
 Qed.
 
 (* ---------------- all protocol version pairs ---------------- *)
